@@ -4,6 +4,8 @@ import (
 	"fmt"
 	"go/ast"
 	"go/token"
+	"sort"
+	"strconv"
 	"strings"
 )
 
@@ -14,8 +16,16 @@ import (
 //   * evictPods: inside the pod loop, the guards that precede the podEvictor.Evict call — the function
 //     called in each condition and how the guard leaves (return / continue) — and whether the Evict call
 //     sits in the else-branch of `if dryRun`.
+//   * which functions of the package call GetNodeRawAllocatableFromNode (the capacity every percentage formula
+//     divides by) and which functions read `.Status.Allocatable` at all (only the fallback may),
+//   * getNodeUsage: how prodPodsMap is indexed (by a key variable / by a field) and the fmt.Sprintf shapes that
+//     build the key (format string + the field names of the arguments),
+//   * processOneNodePool: the detector cache (pl.<field>) handed to every filterRealAbnormalNodes /
+//     resetNodesAsNormal / tryMarkNodesAsNormal call at the top level, in source order, and the set of detector
+//     caches referenced inside the continueEvictionCond closure.
 func init() {
 	extractors["C18"] = func(e *ext) {
+		c18MoreFacts(e)
 		d := "pkg/descheduler/framework/plugins/loadaware"
 		e.constInt(d, "MinResourcePercentage", "MinResourcePercentage")
 		e.constInt(d, "MaxResourcePercentage", "MaxResourcePercentage")
@@ -122,4 +132,146 @@ func init() {
 		fmt.Fprintf(&e.out, "def evictLoopGuards : List String := [%s]\n", strings.Join(q, ", "))
 		fmt.Fprintf(&e.out, "def evictInDryRunElse : Bool := %v\n", evictInDryRunElse)
 	}
+}
+
+func c18LeanList(xs []string) string {
+	q := make([]string, len(xs))
+	for i, x := range xs {
+		q[i] = leanStr(x)
+	}
+	return "[" + strings.Join(q, ", ") + "]"
+}
+
+func c18MoreFacts(e *ext) {
+	d := "pkg/descheduler/framework/plugins/loadaware"
+	calleeName := func(c *ast.CallExpr) string {
+		switch f := c.Fun.(type) {
+		case *ast.Ident:
+			return f.Name
+		case *ast.SelectorExpr:
+			return f.Sel.Name
+		}
+		return ""
+	}
+	// ---- capacity table
+	var callers, readers []string
+	for _, f := range e.dir(d) {
+		for _, dc := range f.Decls {
+			fd, ok := dc.(*ast.FuncDecl)
+			if !ok || fd.Body == nil {
+				continue
+			}
+			calls, reads := false, false
+			ast.Inspect(fd.Body, func(n ast.Node) bool {
+				switch x := n.(type) {
+				case *ast.CallExpr:
+					if calleeName(x) == "GetNodeRawAllocatableFromNode" {
+						calls = true
+					}
+				case *ast.SelectorExpr:
+					if x.Sel.Name == "Allocatable" {
+						if in, ok := x.X.(*ast.SelectorExpr); ok && in.Sel.Name == "Status" {
+							reads = true
+						}
+					}
+				}
+				return true
+			})
+			if calls {
+				callers = append(callers, fd.Name.Name)
+			}
+			if reads {
+				readers = append(readers, fd.Name.Name)
+			}
+		}
+	}
+	sort.Strings(callers)
+	sort.Strings(readers)
+	fmt.Fprintf(&e.out, "def rawAllocatableCallers : List String := %s\n", c18LeanList(callers))
+	fmt.Fprintf(&e.out, "def statusAllocatableReaders : List String := %s\n", c18LeanList(readers))
+
+	// ---- getNodeUsage: the prod lookup table
+	var idxKinds, sprintfs []string
+	if fd := e.funcDecl(d, "", "getNodeUsage"); fd != nil && fd.Body != nil {
+		ast.Inspect(fd.Body, func(n ast.Node) bool {
+			switch x := n.(type) {
+			case *ast.IndexExpr:
+				if id, ok := x.X.(*ast.Ident); ok && id.Name == "prodPodsMap" {
+					switch k := x.Index.(type) {
+					case *ast.Ident:
+						idxKinds = append(idxKinds, "var")
+					case *ast.SelectorExpr:
+						idxKinds = append(idxKinds, "field:"+k.Sel.Name)
+					default:
+						idxKinds = append(idxKinds, "expr")
+					}
+				}
+			case *ast.CallExpr:
+				if calleeName(x) == "Sprintf" && len(x.Args) > 0 {
+					if lit, ok := x.Args[0].(*ast.BasicLit); ok && lit.Kind == token.STRING {
+						f, _ := strconv.Unquote(lit.Value)
+						var fields []string
+						for _, a := range x.Args[1:] {
+							if sel, ok := a.(*ast.SelectorExpr); ok {
+								fields = append(fields, sel.Sel.Name)
+							} else {
+								fields = append(fields, "?")
+							}
+						}
+						sprintfs = append(sprintfs, f+":"+strings.Join(fields, ","))
+					}
+				}
+			}
+			return true
+		})
+	} else {
+		e.fail("getNodeUsage not found")
+	}
+	fmt.Fprintf(&e.out, "def prodMapIndexKinds : List String := %s\n", c18LeanList(idxKinds))
+	fmt.Fprintf(&e.out, "def getNodeUsageSprintfs : List String := %s\n", c18LeanList(sprintfs))
+
+	// ---- processOneNodePool: which detector cache goes where
+	cacheArg := func(c *ast.CallExpr) string {
+		if len(c.Args) >= 2 {
+			if sel, ok := c.Args[1].(*ast.SelectorExpr); ok {
+				return sel.Sel.Name
+			}
+		}
+		return "?"
+	}
+	var topUse, closureCaches []string
+	if fd := e.funcDecl(d, "LowNodeLoad", "processOneNodePool"); fd != nil && fd.Body != nil {
+		for _, st := range fd.Body.List {
+			// the closure is inspected separately
+			if as, ok := st.(*ast.AssignStmt); ok && len(as.Lhs) == 1 && len(as.Rhs) == 1 {
+				if id, ok := as.Lhs[0].(*ast.Ident); ok && id.Name == "continueEvictionCond" {
+					if fl, ok := as.Rhs[0].(*ast.FuncLit); ok {
+						seen := map[string]bool{}
+						ast.Inspect(fl.Body, func(n ast.Node) bool {
+							if sel, ok := n.(*ast.SelectorExpr); ok && strings.HasSuffix(sel.Sel.Name, "AnomalyDetectors") {
+								seen[sel.Sel.Name] = true
+							}
+							return true
+						})
+						for k := range seen {
+							closureCaches = append(closureCaches, k)
+						}
+						sort.Strings(closureCaches)
+						continue
+					}
+				}
+			}
+			ast.Inspect(st, func(n ast.Node) bool {
+				if c, ok := n.(*ast.CallExpr); ok {
+					switch calleeName(c) {
+					case "filterRealAbnormalNodes", "resetNodesAsNormal", "tryMarkNodesAsNormal":
+						topUse = append(topUse, calleeName(c)+":"+cacheArg(c))
+					}
+				}
+				return true
+			})
+		}
+	}
+	fmt.Fprintf(&e.out, "def detectorCacheUse : List String := %s\n", c18LeanList(topUse))
+	fmt.Fprintf(&e.out, "def continueCondCaches : List String := %s\n", c18LeanList(closureCaches))
 }
